@@ -182,6 +182,10 @@ pub struct BlockCase {
     pub seed: u64,
     pub noise_kind: u8,
     pub scale_exp: i8,
+    /// 0: pulses on two wires in three; 1: no pulse anywhere (flat or noise
+    /// only); 2: no pulse and a constant positive pedestal (no negative sample)
+    #[serde(default)]
+    pub quiet: u8,
 }
 
 fn block_signals(c: &BlockCase) -> Vec<(usize, Vec<f64>)> {
@@ -192,7 +196,7 @@ fn block_signals(c: &BlockCase) -> Vec<(usize, Vec<f64>)> {
     // avalanches on some wires, induced on neighbours inside the block
     for k in 0..len {
         let r = mix(c.seed, k as u64);
-        if r % 3 == 0 {
+        if r % 3 == 0 || c.quiet != 0 {
             continue;
         }
         let bin = (r >> 8) as usize % bins;
@@ -209,6 +213,13 @@ fn block_signals(c: &BlockCase) -> Vec<(usize, Vec<f64>)> {
                     break;
                 }
                 s[bin + t] += f * v;
+            }
+        }
+    }
+    if c.quiet == 2 {
+        for (_, s) in sig.iter_mut() {
+            for v in s.iter_mut() {
+                *v = 40.0;
             }
         }
     }
@@ -255,12 +266,15 @@ fn block_case(c: &BlockCase, ev: &mut Ev) -> Outcome {
     }
     ev.nontrivial(fingerprint(&format!("{c:?}")));
     ev.label(if (c.start as usize + c.len as usize) > 256 { "block:straddles-seam" } else { "block:inside" });
+    if c.quiet != 0 {
+        ev.label(if c.quiet == 1 { "block:no-pulse" } else { "block:positive-pedestal" });
+    }
     ev.label(match c.len { 1 => "blocklen:1", 2..=8 => "blocklen:2-8", 9..=64 => "blocklen:9-64", 65..=255 => "blocklen:65-255", _ => "blocklen:256" });
     Ok(())
 }
 
 fn block_strategy() -> impl Strategy<Value = BlockCase> {
-    (0u16..256, prop_oneof![2 => 1u16..=8, 3 => 9u16..=64, 1 => 65u16..=255, 1 => Just(256u16)], 30u16..200, any::<u64>(), 0u8..5, -8i8..=8).prop_map(|(start, len, bins, seed, noise_kind, scale_exp)| BlockCase { start, len, bins, seed, noise_kind, scale_exp })
+    (0u16..256, prop_oneof![2 => 1u16..=8, 3 => 9u16..=64, 1 => 65u16..=255, 1 => Just(256u16)], 30u16..200, any::<u64>(), 0u8..5, -8i8..=8, prop_oneof![10 => Just(0u8), 1 => Just(1u8), 1 => Just(2u8)]).prop_map(|(start, len, bins, seed, noise_kind, scale_exp, quiet)| BlockCase { start, len, bins, seed, noise_kind, scale_exp, quiet })
 }
 
 // ------------------------------------------------------------------ isolated pulse
